@@ -70,14 +70,14 @@ pub fn s1(tier: Tier) -> Vec<Act> {
     a
 }
 
-/// S2: OPER / QUES summary bits in STB.
+/// S2: OPER / QUES summary bits in STB. OPER ranges over the subsets of {bit 0, bit 15} (the
+/// unusable bit 15 must never contribute to, nor mask, the summary), QUES over one bit.
 pub fn s2(tier: Tier) -> Vec<Act> {
     let mut a = vec![];
-    let vals: Vec<u16> = tier.pick(vec![0, 1], vec![0, 1 << 5]);
-    let both: Vec<u16> = vec![0, 1];
-    let vals = if tier == Tier::Quick { both } else { vals };
-    a.extend(reg_actions(Which::Oper, &vals, false, false));
-    a.extend(reg_actions(Which::Ques, &vals, false, false));
+    let oper_vals: Vec<u16> = vec![0, 1, 0x8000, 0x8001];
+    let ques_vals: Vec<u16> = tier.pick(vec![0, 1], vec![0, 1 << 5]);
+    a.extend(reg_actions(Which::Oper, &oper_vals, false, false));
+    a.extend(reg_actions(Which::Ques, &ques_vals, false, false));
     a.push(msg1("*CLS", U::Cls));
     a.push(msg1("STAT:PRES", U::Preset));
     for v in [0u8, 8, 128, 136] {
